@@ -669,6 +669,8 @@ class Interp(object):
                     return self.from_const(base[idx])
                 self.act('OOB', idx)
                 return TOP
+            if isinstance(base, Pos) and isinstance(idx, int) and base.k is not None:
+                return self.model.deref(self, fr, n, Pos(base.k + idx))      # p[i] == *(p + i)
             return TOP
         if k == 'UnaryOperator':
             return self.ev_unary(fr, n, depth)
